@@ -79,6 +79,42 @@ def _mk_fsync(real):
     return fsync
 
 
+def _sim_stat_result(size):
+    import os
+    import stat as _stat
+
+    return os.stat_result((_stat.S_IFREG | 0o644, 0, 0, 1, 0, 0, size, 0, 0, 0))
+
+
+def _mk_fstat(real):
+    def fstat(fd):
+        k = K.CURRENT
+        if k is not None and isinstance(fd, int) and fd >= K.SIM_FD_BASE:
+            f = k.fdtab.get(fd - K.SIM_FD_BASE)
+            if f is None:
+                if k.finished or k.cur_pid in k.dead:
+                    raise K.SimCrash()
+                raise OSError(9, "Bad file descriptor")
+            return _sim_stat_result(k.sys_fstat(f))
+        return real(fd)
+    return fstat
+
+
+def _mk_stat(real):
+    def stat(path, *a, **kw):
+        k = K.CURRENT
+        if k is not None and not isinstance(path, int):
+            try:
+                p = k.norm(path)
+            except TypeError:
+                p = None
+            if p is not None and p in k.files:
+                k.sys_stat(path)
+                return _sim_stat_result(len(k.files[p]))
+        return real(path, *a, **kw)
+    return stat
+
+
 _PATCHES = None
 LOCK_ROOT = "/dev/shm/molli-verif-simlocks/shared"   # exists as an EMPTY real directory (fasteners makedirs it); no file is ever created in it
 
@@ -118,6 +154,8 @@ def _build_patches():
     return [
         (_os, "fsync", _mk_fsync(_os.fsync)),
         (_os, "fdatasync", _mk_fsync(_os.fdatasync)),
+        (_os, "fstat", _mk_fstat(_os.fstat)),
+        (_os, "stat", _mk_stat(_os.stat)),
         (molli.storage.ukvfile, "Path", K.SimPath),
         (molli.storage.backends, "Path", K.SimPath),
         (molli.storage.collection, "Path", K.SimPath),
